@@ -13,3 +13,4 @@ import BqlVerif.Properties.C17
 import BqlVerif.Properties.C18
 import BqlVerif.Properties.C12
 import BqlVerif.Properties.C20
+import BqlVerif.Properties.C19
